@@ -446,8 +446,11 @@ pub fn edge_aligned(a: &[P], b: &[P], tol: f64) -> bool {
 
 fn seg_integral(r: f64, u: f64) -> f64 {
     // ∫ sqrt(r^2 - u^2) du  (antiderivative)
+    // both terms use the same s = sqrt((r-u)(r+u)): their rounding errors then cancel to first order near
+    // u = +-r, where u*sqrt(r^2-u^2) and r^2 asin(u/r) evaluated separately lose 8 digits
     let u = u.max(-r).min(r);
-    0.5 * (u * (r * r - u * u).max(0.).sqrt() + r * r * (u / r).asin())
+    let s = ((r - u) * (r + u)).max(0.).sqrt();
+    0.5 * (u * s + r * r * u.atan2(s))
 }
 
 pub fn union_area_discs(discs: &[(P, f64)]) -> f64 {
